@@ -29,21 +29,31 @@ fv_step() {
   local a
   for a in "$@"; do line="$line"$'\t'"$a"; done
   printf '%s\n' "$line" >> /ctl/log
+  FV_IDX=$idx
   case ",$FV_FAIL," in *",$idx,"*) return 1;; esac
   return 0
 }
+fv_status() { printf '%s\t%s\n' "$FV_IDX" "$1" >> /ctl/status; }
 '''
 
 WRAP = '''#!/bin/bash
 . /stubs/_lib.sh
-fv_step {name} "$@" || exit 1
-exec /usr/bin/{name} "$@"
+if fv_step {name} "$@"; then /usr/bin/{name} "$@"; rc=$?; else rc=1; fi
+fv_status $rc
+exit $rc
+'''
+
+FOOT = '''}
+if [ $inj = 0 ]; then ( main "$@" ); rc=$?; else rc=1; fi
+fv_status $rc
+exit $rc
 '''
 
 STUBS = {
     "cmake": r'''#!/bin/bash
 . /stubs/_lib.sh
-fv_step cmake "$@" || exit 1
+fv_step cmake "$@"; inj=$?
+main() {
 [ $# = 1 ] || exit 1
 [ -f "$1/CMakeLists.txt" ] || exit 1
 [ -d x86_64 ] || /usr/bin/mkdir x86_64 || exit 1
@@ -52,14 +62,16 @@ printf '%s\n' 'GEN cmake' > Makefile
 ''',
     "make": r'''#!/bin/bash
 . /stubs/_lib.sh
-fv_step make "$@" || exit 1
+fv_step make "$@"; inj=$?
+main() {
 [ $# = 0 ] || exit 1
 [ -f Makefile ] || exit 1
 printf '%s\n' 'GEN build' > built
 ''',
     "python": r'''#!/bin/bash
 . /stubs/_lib.sh
-fv_step python "$@" || exit 1
+fv_step python "$@"; inj=$?
+main() {
 [ $# = 2 ] || exit 1
 [ -f "$1" ] || exit 1
 case "$2" in --submission-dir=*) d=${2#--submission-dir=};; *) exit 1;; esac
@@ -72,26 +84,30 @@ case "$2" in --submission-dir=*) d=${2#--submission-dir=};; *) exit 1;; esac
 ''',
     "sudo": r'''#!/bin/bash
 . /stubs/_lib.sh
-fv_step sudo "$@" || exit 1
+fv_step sudo "$@"; inj=$?
+main() {
 [ $# = 4 ] || exit 1
 [ -e "$4" ] || exit 1
 ''',
     "mkedanlzr": r'''#!/bin/bash
 . /stubs/_lib.sh
-fv_step mkedanlzr "$@" || exit 1
+fv_step mkedanlzr "$@"; inj=$?
+main() {
 [ $# = 1 ] || exit 1
 [ -e "$1" ] && exit 1
 /usr/bin/mkdir "$1" "$1/src" "$1/plugins" "$1/python" || exit 1
 ''',
     "scram": r'''#!/bin/bash
 . /stubs/_lib.sh
-fv_step scram "$@" || exit 1
+fv_step scram "$@"; inj=$?
+main() {
 [ -f src/Analyzer.cc ] || [ -f plugins/Analyzer.cc ] || exit 1
 printf '%s\n' 'GEN build' > built
 ''',
     "cmsRun": r'''#!/bin/bash
 . /stubs/_lib.sh
-fv_step cmsRun "$@" || exit 1
+fv_step cmsRun "$@"; inj=$?
+main() {
 [ $# = 1 ] || exit 1
 [ -f "$1" ] || exit 1
 [ -f built ] || exit 1
@@ -101,7 +117,8 @@ fv_step cmsRun "$@" || exit 1
 ''',
     "root": r'''#!/bin/bash
 . /stubs/_lib.sh
-fv_step root "$@" || exit 1
+fv_step root "$@"; inj=$?
+main() {
 [ $# = 4 ] || exit 1
 arg=$4
 macro=${arg%%\(\"*}
@@ -118,15 +135,16 @@ case "$out" in *\"\)) out=${out%\"\)};; *) exit 1;; esac
 ''',
     "xrdcp": r'''#!/bin/bash
 . /stubs/_lib.sh
-fv_step xrdcp "$@" || exit 1
+fv_step xrdcp "$@"; inj=$?
+main() {
 exit 1
 ''',
 }
 
 SOURCED = {
-    "src_release.sh": ". /stubs/_lib.sh\nfv_step source:release || return 1\nexport AnalysisBaseExternals_PLATFORM=x86_64\n",
-    "src_setup.sh": ". /stubs/_lib.sh\nfv_step source:setup || return 1\n",
-    "src_entry.sh": ". /stubs/_lib.sh\nfv_step source:entry || return 1\nexport CVSROOT=cms\n",
+    "src_release.sh": ". /stubs/_lib.sh\nif fv_step source:release; then fv_status 0; else fv_status 1; return 1; fi\nexport AnalysisBaseExternals_PLATFORM=x86_64\n",
+    "src_setup.sh": ". /stubs/_lib.sh\nif fv_step source:setup; then fv_status 0; else fv_status 1; return 1; fi\n",
+    "src_entry.sh": ". /stubs/_lib.sh\nif fv_step source:entry; then fv_status 0; else fv_status 1; return 1; fi\nexport CVSROOT=cms\n",
 }
 WRAPPED = ["mkdir", "cp", "chmod", "rm", "cat"]
 
@@ -164,7 +182,7 @@ def _setup_root(root: Path):
     st = root / "stubs"
     _write(st / "_lib.sh", LIB)
     for n, t in STUBS.items():
-        _write(st / n, t, 0o755)
+        _write(st / n, t + FOOT, 0o755)
     for n in WRAPPED:
         _write(st / n, WRAP.format(name=n), 0o755)
     for n, t in SOURCED.items():
@@ -220,6 +238,7 @@ def _snapshot(root: Path) -> Dict[str, Any]:
 def _invoke(root: Path, inv: Dict[str, Any], cfg: Dict[str, Any]) -> Dict[str, Any]:
     (root / "ctl/step").write_text("0\n")
     (root / "ctl/log").write_text("")
+    (root / "ctl/status").write_text("")
     env = {
         "PATH": "/stubs:/usr/bin:/bin",
         "FV_FAIL": ",".join(str(i) for i in inv.get("fail", [])),
@@ -244,7 +263,8 @@ def _invoke(root: Path, inv: Dict[str, Any], cfg: Dict[str, Any]) -> Dict[str, A
     for ln in (root / "ctl/log").read_text().splitlines():
         parts = ln.split("\t")
         log.append([parts[1]] + parts[2:])
-    return {"exit": code, "log": log, "fs": _snapshot(root), "stderr": err}
+    status = [int(ln.split("\t")[1]) for ln in (root / "ctl/status").read_text().splitlines()]
+    return {"exit": code, "log": log, "status": status, "fs": _snapshot(root), "stderr": err}
 
 
 def worker(rootdir: str) -> int:
